@@ -65,6 +65,9 @@ func opsB(thorough bool) []BOp {
 	}
 	r = append(r, BOp{Kind: "rename", ID: "h1", NewID: "h3", Match: ""}, BOp{Kind: "rename", ID: "h3", NewID: "h1", Match: `changed() == TRUE`})
 	r = append(r, BOp{Kind: "publish", ID: "p"}, BOp{Kind: "unpublish", ID: "p"})
+	// what a stopping task does to its topics: the running topic is dropped; the next event brings it back with its
+	// handlers (and, with topic persistence, its non-OK states)
+	r = append(r, BOp{Kind: "closetopic", ID: "t1"}, BOp{Kind: "closetopic", ID: "t2"})
 	return r
 }
 
@@ -150,6 +153,7 @@ type hmodel struct {
 }
 
 type modelB struct {
+	closed   map[string]bool                   // closed and not collected into since
 	levels   map[string]map[string]alert.Level // topic -> id -> level
 	handlers map[string]*hmodel                // registered spec handlers on t1 (by id)
 	publish  bool
@@ -157,6 +161,7 @@ type modelB struct {
 }
 
 func (m *modelB) collect(topic, id string, level alert.Level, logs map[string][]string) {
+	delete(m.closed, topic)
 	if m.levels[topic] == nil {
 		m.levels[topic] = map[string]alert.Level{}
 	}
@@ -188,10 +193,28 @@ func (m *modelB) collect(topic, id string, level alert.Level, logs map[string][]
 
 // runB executes the history on a fresh alert service and compares the per-handler logs.
 func runB(hist []BOp) (p *problem) {
+	if p := runBP(hist, true); p != nil {
+		return p
+	}
+	for _, o := range hist {
+		if o.Kind == "closetopic" {
+			// and without topic persistence: a closed topic comes back empty, but with its handlers
+			if p := runBP(hist, false); p != nil {
+				p.kind += ":no-persistence"
+				p.msg = "(persist-topics off) " + p.msg
+				return p
+			}
+			break
+		}
+	}
+	return nil
+}
+
+func runBP(hist []BOp, persist bool) (p *problem) {
 	cmd := &kit.FakeCommander{}
 	// topic persistence is on and the store refuses every write for topic "tbad": publishing to it fails, which must
 	// not keep the publish handler from serving its other target
-	env, err := kit.NewAlertEnv("c09", kit.AlertOpts{Commander: cmd, Persist: true, WrapStore: func(ns string, in storage.Interface) storage.Interface {
+	env, err := kit.NewAlertEnv("c09", kit.AlertOpts{Commander: cmd, Persist: persist, WrapStore: func(ns string, in storage.Interface) storage.Interface {
 		return &badTopicStore{Interface: in}
 	}})
 	if err != nil {
@@ -207,7 +230,7 @@ func runB(hist []BOp) (p *problem) {
 	if err := as.RegisterHandlerSpec(spec("t2rec", "t2", "")); err != nil {
 		return &problem{"internal", "register t2rec: " + err.Error()}
 	}
-	m := &modelB{levels: map[string]map[string]alert.Level{}, handlers: map[string]*hmodel{}}
+	m := &modelB{levels: map[string]map[string]alert.Level{}, handlers: map[string]*hmodel{}, closed: map[string]bool{}}
 	want := map[string][]string{}
 	t0 := time.Date(2000, 1, 1, 0, 0, 0, 0, time.UTC)
 	for i, o := range hist {
@@ -264,6 +287,17 @@ func runB(hist []BOp) (p *problem) {
 				return &problem{"deregister-error", err.Error()}
 			}
 			m.publish = false
+		case "closetopic":
+			if err := as.CloseTopic(o.ID); err != nil {
+				return &problem{"closetopic-error", err.Error()}
+			}
+			m.closed[o.ID] = true
+			// what survives: with persistence the non-OK states (OK states are not stored), without it nothing
+			for id, l := range m.levels[o.ID] {
+				if !persist || l == alert.OK {
+					delete(m.levels[o.ID], id)
+				}
+			}
 		}
 		synctest.Wait()
 	}
@@ -301,6 +335,9 @@ func runB(hist []BOp) (p *problem) {
 	}
 	// topic states through the service API
 	for _, tp := range []string{"t1", "t2"} {
+		if m.closed[tp] {
+			continue // not running: nothing to ask until the next event brings it back
+		}
 		max := alert.OK
 		for _, l := range m.levels[tp] {
 			if l > max {
@@ -338,6 +375,104 @@ func bubbleB(t *testing.T, hist []BOp) (p *problem) {
 	}()
 	synctest.Test(t, func(t *testing.T) {
 		p = runB(hist)
+	})
+	return
+}
+
+// ---------------------------------------------------------------- aggregate handler over several intervals
+//
+// An aggregate handler spec on t1 (interval 10s, target t2): events collected on t1 are gathered; at every interval
+// end that saw at least one event a single event of id "ag" is collected on t2 whose level is the highest level of
+// THAT interval's events. History alphabet: collect(t1, a|b, OK|WARNING|CRITICAL) and tick (10s pass).
+
+func aggOps() []BOp {
+	var r []BOp
+	for _, id := range []string{"a", "b"} {
+		for _, l := range []alert.Level{alert.OK, alert.Warning, alert.Critical} {
+			r = append(r, BOp{Kind: "collect", Topic: "t1", ID: id, Level: l})
+		}
+	}
+	return append(r, BOp{Kind: "tick"})
+}
+
+func runAgg(hist []BOp) (p *problem) {
+	cmd := &kit.FakeCommander{}
+	env, err := kit.NewAlertEnv("c09", kit.AlertOpts{Commander: cmd, Persist: true})
+	if err != nil {
+		return &problem{"internal", err.Error()}
+	}
+	defer func() {
+		env.Shutdown(true)
+	}()
+	as := env.Alert
+	if err := as.RegisterHandlerSpec(alertservice.HandlerSpec{ID: "t2rec", Topic: "t2", Kind: "exec", Options: map[string]interface{}{"prog": "t2rec"}}); err != nil {
+		return &problem{"internal", "register t2rec: " + err.Error()}
+	}
+	if err := as.RegisterHandlerSpec(alertservice.HandlerSpec{ID: "agg", Topic: "t1", Kind: "aggregate", Options: map[string]interface{}{"id": "ag", "interval": 10 * time.Second, "topic": "t2"}}); err != nil {
+		return &problem{"internal", "register aggregate handler: " + err.Error()}
+	}
+	// (the service does not stop the goroutines of its spec handlers when it is closed: deregister first)
+	defer as.DeregisterHandlerSpec("t1", "agg")
+	synctest.Wait()
+	t0 := time.Date(2000, 1, 1, 0, 0, 0, 0, time.UTC)
+	var want []string
+	var pending []alert.Level
+	prevAg := alert.OK
+	for i, o := range hist {
+		switch o.Kind {
+		case "collect":
+			ev := alert.Event{Topic: "t1", State: alert.EventState{ID: o.ID, Level: o.Level, Time: t0.Add(time.Duration(i) * time.Second)}, Data: alert.EventData{Name: "m", TaskName: "tk"}}
+			if err := as.Collect(ev); err != nil {
+				return &problem{"collect-error", fmt.Sprintf("Collect failed: %v after %v", err, hist[:i+1])}
+			}
+			pending = append(pending, o.Level)
+		case "tick":
+			time.Sleep(10 * time.Second)
+			if len(pending) > 0 {
+				max := alert.OK
+				for _, l := range pending {
+					if l > max {
+						max = l
+					}
+				}
+				want = append(want, fmt.Sprintf("ag:%s<-%s n=%d", max, prevAg, len(pending)))
+				prevAg = max
+				pending = nil
+			}
+		}
+		synctest.Wait()
+	}
+	synctest.Wait()
+	var got []string
+	for _, c := range cmd.Copy() {
+		var ad alert.Data
+		if err := json.Unmarshal(c.Stdin, &ad); err != nil {
+			return &problem{"internal", "bad exec payload: " + err.Error()}
+		}
+		n := 0
+		fmt.Sscanf(ad.Message, "Received %d events", &n)
+		got = append(got, fmt.Sprintf("%s:%s<-%s n=%d", ad.ID, ad.Level, ad.PreviousLevel, n))
+	}
+	if strings.Join(got, " ") != strings.Join(want, " ") {
+		return &problem{"aggregate-log", fmt.Sprintf("the handler on the aggregate's target topic saw %v, want %v (level = highest of the interval's events) after %v", got, want, hist)}
+	}
+	if ts, ok, _ := as.TopicState("t2"); len(want) > 0 && (!ok || ts.Level != prevAg) {
+		return &problem{"aggregate-topic-level", fmt.Sprintf("target topic level %s (listed %v), want %s after %v", ts.Level, ok, prevAg, hist)}
+	}
+	for _, e := range env.Diag.ErrorsCopy() {
+		return &problem{"service-error", fmt.Sprintf("diagnostic error %+v after %v", e, hist)}
+	}
+	return nil
+}
+
+func bubbleAgg(t *testing.T, hist []BOp) (p *problem) {
+	defer func() {
+		if r := recover(); r != nil {
+			p = &problem{"panic", fmt.Sprintf("panic: %v after %v", r, hist)}
+		}
+	}()
+	synctest.Test(t, func(t *testing.T) {
+		p = runAgg(hist)
 	})
 	return
 }
